@@ -80,6 +80,9 @@ pub struct Gen {
     pub nops: usize,
     /// idle profile: names of queues that are being kept idle
     idle: Vec<String>,
+    /// operation to issue next, whatever the profile says (set by a generated op that must be
+    /// followed up, e.g. truncate(..=u64::MAX) is followed by the deletion of the queue)
+    pending: Option<Op>,
     /// total payload bytes appended since the last truncate burst (gc pacing)
     since_trunc: u64,
 }
@@ -133,7 +136,7 @@ impl Gen {
                 }
             }
         }
-        Gen { rng, cfg, names, st: BTreeMap::new(), nops: 0, idle: Vec::new(), since_trunc: 0 }
+        Gen { rng, cfg, names, st: BTreeMap::new(), nops: 0, idle: Vec::new(), pending: None, since_trunc: 0 }
     }
 
     pub fn existing(&self) -> Vec<String> {
@@ -332,8 +335,8 @@ impl Gen {
                             break;
                         }
                     }
-                    if g.recs.is_empty() && *pos + 1 > g.next {
-                        g.next = *pos + 1;
+                    if g.recs.is_empty() && pos.saturating_add(1) > g.next {
+                        g.next = pos.saturating_add(1);
                     }
                 }
             }
@@ -342,6 +345,11 @@ impl Gen {
     }
 
     fn gen_append(&mut self, q: String, cursor: Option<u64>) -> Op {
+        // a queue parked at the end of the position space (after truncate(..=u64::MAX)) is
+        // not appended to: that is the overflow corner listed under C10's known findings
+        if self.st.get(&q).map(|g| g.next >= u64::MAX - (1 << 32)).unwrap_or(false) {
+            return Op::Delete { q };
+        }
         let next = self.st[&q].next;
         let pos = match self.rng.below(100) {
             0..=69 => None,
@@ -377,6 +385,13 @@ impl Gen {
         let first = g.recs.front().map(|x| x.0);
         let last = g.recs.back().map(|x| x.0);
         let n = g.recs.len();
+        // "drop everything": truncate(..=u64::MAX), one truncate in fifty. It parks the queue at
+        // the end of the position space (appending there is the overflow corner listed under
+        // C10's known findings), so the queue is deleted right afterwards.
+        if self.st.len() > 1 && self.rng.chance(1, 50) {
+            self.pending = Some(Op::Delete { q: q.clone() });
+            return Op::Truncate { q, pos: u64::MAX };
+        }
         // an EMPTY queue that has already moved forward: one time in four a stale truncate,
         // well below where the queue stands (a late or duplicated request)
         if n == 0 && next > 1 && self.rng.chance(1, 4) {
@@ -468,6 +483,11 @@ impl Gen {
     }
 
     fn choose(&mut self, cursor: Option<u64>) -> Op {
+        if let Some(op) = self.pending.take() {
+            if op.queue().map(|q| self.st.contains_key(q)).unwrap_or(true) {
+                return op;
+            }
+        }
         if self.st.is_empty() {
             let q = self.rng.pick(&self.names).clone();
             return Op::Create { q };
